@@ -1,0 +1,88 @@
+//! Verification hooks. Compiled only with `--cfg redb_verif`; nothing in here is part of redb's
+//! API. The hooks are read-only projections of internal state, thin wrappers over internal data
+//! structures, and named event/pause points that call a process-wide callback when one is set.
+
+use alloc::sync::Arc;
+use alloc::vec::Vec;
+use std::sync::RwLock;
+
+/// (region, index, order)
+pub type Page = (u32, u32, u8);
+
+/// Page accounting as seen by a write transaction that has not modified anything yet
+#[derive(Debug, Default, Clone)]
+pub struct Accounting {
+    /// order-0 pages (region, index) the allocator considers allocated; None if the allocator
+    /// state has been discarded
+    pub allocated: Option<Vec<(u32, u32)>>,
+    /// number of pages in each region, as the allocator sees it
+    pub region_lens: Vec<u32>,
+    pub data_tree: Vec<Page>,
+    pub system_tree: Vec<Page>,
+    pub data_freed: Vec<(u64, Vec<Page>)>,
+    pub system_freed: Vec<(u64, Vec<Page>)>,
+    pub data_allocated: Vec<(u64, Vec<Page>)>,
+    pub unpersisted_pages: Vec<Page>,
+    pub unpersisted_allocations: Vec<(u64, Vec<Page>)>,
+    pub unpersisted_data_freed: Vec<(u64, Vec<Page>)>,
+    pub post_commit_allocations: Vec<Page>,
+    pub txn_freed_data: Vec<Page>,
+    pub txn_freed_system: Vec<Page>,
+    pub needs_repair: bool,
+}
+
+#[derive(Debug, Default, Clone)]
+pub struct TrackerSnapshot {
+    pub next_savepoint_id: u64,
+    pub next_transaction_id: u64,
+    pub live_write_transaction: Option<u64>,
+    pub live_read_transactions: Vec<(u64, u64)>,
+    pub valid_savepoints: Vec<(u64, u64)>,
+    pub persistent_savepoints: Vec<u64>,
+    pub pending_non_durable_commits: Vec<(u64, u64)>,
+    pub unprocessed_freed_non_durable_commits: Vec<u64>,
+    pub deferred_close: bool,
+}
+
+#[derive(Debug, Default, Clone)]
+pub struct SlotSnapshot {
+    pub transaction_id: u64,
+    pub data_root: Option<Page>,
+    pub system_root: Option<Page>,
+}
+
+#[derive(Debug, Default, Clone)]
+pub struct HeaderSnapshot {
+    pub primary_slot: usize,
+    pub recovery_required: bool,
+    pub two_phase_commit: bool,
+    pub read_from_secondary: bool,
+    pub slots: [SlotSnapshot; 2],
+    pub full_regions: u32,
+    pub trailing_region_pages: u32,
+    pub region_max_data_pages: u32,
+    pub region_header_pages: u32,
+    pub layout_len: u64,
+    pub allocators_loaded: bool,
+    pub needs_repair: bool,
+}
+
+pub type Hook = dyn Fn(&str, &[(&str, u64)]) + Send + Sync + 'static;
+
+static HOOK: RwLock<Option<Arc<Hook>>> = RwLock::new(None);
+
+/// Install (or remove) the process-wide hook. `point()` calls it with the name of the point and
+/// a few scalar fields. Points named `*.pause` style are placed outside all redb locks, so the
+/// hook may block there; all others are called inside the critical section they describe and
+/// must return promptly.
+pub fn set_hook(hook: Option<Arc<Hook>>) {
+    *HOOK.write().unwrap() = hook;
+}
+
+#[inline]
+pub fn point(name: &str, fields: &[(&str, u64)]) {
+    let hook = HOOK.read().unwrap().clone();
+    if let Some(hook) = hook {
+        hook(name, fields);
+    }
+}
